@@ -206,7 +206,8 @@ def PROOFS():
     from ..contracts import algebra_c
     T = "formulae.terms.terms."
     R = "formulae.terms.call_resolver."
-    return [("vf.contracts.terms_c", [T + "Term.__init__", T + "Term.__eq__", T + "Model.__init__", T + "Model.add_term", T + "Model.terms",
+    from ..contracts import terms_c
+    return [("vf.contracts.terms_c", terms_c.IDENTITY + [T + "Term.__init__", T + "Term.__eq__", T + "Model.__init__", T + "Model.add_term", T + "Model.terms",
                                       T + "Model.__add__", T + "Model.__sub__", T + "Model.__add__#model", T + "Model.__sub__#model"]),
             ("vf.contracts.call_resolver_c", [R + c for c in ("LazyValue.__eq__", "LazyCall.__eq__", "LazyOperator.__eq__", "LazyVariable.__eq__",
                                                               "LazyValue.__hash__", "LazyVariable.__hash__")]),
